@@ -23,13 +23,19 @@ pub struct Cmd {
     pub args: Vec<Vec<u8>>,
     pub env: Vec<(String, String)>,
     pub stdin: StdinSpec,
-    /// when Some, stdout is redirected to this file (relative to cwd) instead of a pipe
+    /// when Some, stdout is redirected to this file (relative to cwd, or absolute) instead of a pipe
     pub stdout_file: Option<String>,
+    /// stdout is the write end of a pipe whose read end is already closed
+    #[serde(default)]
+    pub stdout_closed_pipe: bool,
+    /// stdin is this file or directory (opened read-only) instead of StdinSpec
+    #[serde(default)]
+    pub stdin_path: Option<String>,
 }
 
 impl Cmd {
     pub fn new(args: &[&str]) -> Cmd {
-        Cmd { args: args.iter().map(|a| a.as_bytes().to_vec()).collect(), env: vec![], stdin: StdinSpec::Null, stdout_file: None }
+        Cmd { args: args.iter().map(|a| a.as_bytes().to_vec()).collect(), env: vec![], stdin: StdinSpec::Null, stdout_file: None, stdout_closed_pipe: false, stdin_path: None }
     }
     pub fn env(mut self, k: &str, v: &str) -> Cmd {
         self.env.push((k.to_string(), v.to_string()));
@@ -154,13 +160,27 @@ pub fn run_limit(cmd: &Cmd, cwd: &Path, limit: Duration) -> Out {
             c.stdin(Stdio::piped());
         }
     }
-    match &cmd.stdout_file {
-        Some(f) => {
-            let fh = std::fs::File::create(cwd.join(f)).expect("stdout file");
-            c.stdout(fh);
+    if let Some(pth) = &cmd.stdin_path {
+        let fh = std::fs::File::open(cwd.join(pth)).expect("stdin path");
+        c.stdin(fh);
+    }
+    if cmd.stdout_closed_pipe {
+        use std::os::unix::io::FromRawFd;
+        let mut fds = [0i32; 2];
+        unsafe {
+            assert_eq!(libc::pipe2(fds.as_mut_ptr(), libc::O_CLOEXEC), 0);
+            libc::close(fds[0]);
+            c.stdout(Stdio::from_raw_fd(fds[1]));
         }
-        None => {
-            c.stdout(Stdio::piped());
+    } else {
+        match &cmd.stdout_file {
+            Some(f) => {
+                let fh = std::fs::OpenOptions::new().write(true).create(true).truncate(true).open(cwd.join(f)).expect("stdout file");
+                c.stdout(fh);
+            }
+            None => {
+                c.stdout(Stdio::piped());
+            }
         }
     }
     c.stderr(Stdio::piped());
